@@ -106,45 +106,48 @@ def build_specs(basic_nodes: dict, basic_marks: dict, list_nodes: dict) -> dict:
     return Z
 
 
-def mark_family_specs(limit=None):
+def mark_family_specs(orders=None):
     """F-marks: enumerated family of mark configurations over 3 mark types A, B, C
     (A carries an `id` attribute so two different A marks can coexist / exclude each other).
 
-    excludes of each in {absent, '', '_', 'A', 'B', 'C', 'A B', 'grp'}, B and C in group 'grp'.
-    Parent paragraph `marks` in {absent, '', '_', 'A', 'B C', 'grp'}.
-    Yields (id, spec)."""
+    excludes of each in {absent, '', '_', 'A', 'B', 'C', 'B C', 'grp'} (B and C are in group 'grp');
+    every declaration (= rank) order of A, B, C; parents with marks in {absent, '', '_', 'A', 'B C', 'grp'}.
+    Returns [(id, spec)]."""
+    import itertools
+
     ex_opts = [None, "", "_", "A", "B", "C", "B C", "grp"]
-    parent_opts = [None, "", "_", "A", "B C", "grp"]
     out = []
-    k = 0
-    for ea in ex_opts:
-        for eb in ex_opts:
-            for ec in ex_opts:
-                marks = {}
-                for name, ex in (("A", ea), ("B", eb), ("C", ec)):
-                    ms = {}
-                    if name == "A":
-                        ms["attrs"] = {"id": {"default": 0}}
-                    else:
-                        ms["group"] = "grp"
-                    if ex is not None:
-                        ms["excludes"] = ex
-                    marks[name] = ms
-                pm = parent_opts[k % len(parent_opts)]
-                nodes = {
-                    "doc": {"content": "block+"},
-                    "paragraph": {"content": "inline*", "group": "block"},
-                    "plain": {"content": "inline*", "group": "block", "marks": ""},
-                    "only": {"content": "inline*", "group": "block"},
-                    "text": {"group": "inline"},
-                    "atom": {"inline": True, "group": "inline"},
-                }
-                if pm is not None:
-                    nodes["only"]["marks"] = pm
-                out.append((f"fm{k}", {"nodes": nodes, "marks": marks}))
-                k += 1
-                if limit and k >= limit:
-                    return out
+    orders = orders or list(itertools.permutations(["A", "B", "C"]))
+    for oi, order in enumerate(orders):
+        k = 0
+        for ea in ex_opts:
+            for eb in ex_opts:
+                for ec in ex_opts:
+                    ex = {"A": ea, "B": eb, "C": ec}
+                    marks = {}
+                    for name in order:
+                        ms = {}
+                        if name == "A":
+                            ms["attrs"] = {"id": {"default": 0}}
+                        else:
+                            ms["group"] = "grp"
+                        if ex[name] is not None:
+                            ms["excludes"] = ex[name]
+                        marks[name] = ms
+                    nodes = {
+                        "doc": {"content": "block+"},
+                        "paragraph": {"content": "inline*", "group": "block"},
+                        "plain": {"content": "inline*", "group": "block", "marks": ""},
+                        "p_all": {"content": "inline*", "group": "block", "marks": "_"},
+                        "p_A": {"content": "inline*", "group": "block", "marks": "A"},
+                        "p_BC": {"content": "inline*", "group": "block", "marks": "B C"},
+                        "p_grp": {"content": "inline*", "group": "block", "marks": "grp"},
+                        "box": {"content": "block+", "group": "block"},
+                        "text": {"group": "inline"},
+                        "atom": {"inline": True, "group": "inline"},
+                    }
+                    out.append((f"fm{oi}.{k}", {"nodes": nodes, "marks": marks}))
+                    k += 1
     return out
 
 
